@@ -26,3 +26,6 @@ def run(project, rep):
     Q.q_r5_trnuid(project, schema, rep)
     Q.q_r6_serialize(project, rep)
     Q.q_r7_pipeline(project, rep)
+    from .. import rules_wire as W
+    W.l_r2_escaping(project, rep)
+    W.l_r2_escaping(project, rep, rule="W-R3", reader_decodable=True)
